@@ -2,6 +2,7 @@
 cause attribution used to match the two unrepairable known findings."""
 from __future__ import annotations
 
+import os
 from functools import lru_cache
 
 from . import gen
@@ -13,7 +14,11 @@ SLOW = {n for n, L in LOGICS.items() if L.base.name in ('K3W', 'K3WQ', 'B3E')}
 def logic_names():
     from pytableaux.logics import registry
     registry.import_all()
-    return [registry(m).Meta.name for m in registry]
+    names = [registry(m).Meta.name for m in registry]
+    only = os.environ.get('VERIF_LOGICS')      # debugging aid: restrict a run to some logics (never used by the registered commands)
+    if only:
+        names = [n for n in names if n in only.split(',')]
+    return names
 
 @lru_cache(maxsize=None)
 def _prop(S, paired_max, wide):
